@@ -1,4 +1,4 @@
 #!/bin/bash
 # verify the given seeded mutants, 3 at a time; results appended to /verif/seeded/VERIFY.log
 cd /verif
-printf '%s\n' "$@" | xargs -P 3 -I{} tools/verify_mutant.sh {} >> seeded/VERIFY.log 2>&1
+printf '%s\n' "$@" | xargs -P 2 -I{} tools/verify_mutant.sh {} >> seeded/VERIFY.log 2>&1
